@@ -5,6 +5,10 @@ For each patch: apply to /repo, run the quick check of every property whose anch
 touches (plus C13 and C17, whose inventories look at every file), revert.  Writes seeded/harmless.json."""
 import json, os, re, subprocess, sys, glob, time
 VERIF = os.path.dirname(os.path.dirname(os.path.abspath(__file__)))
+# the patched tree the checks are run against: /repo itself, or a scratch worktree of it (EVAL_REPO) so that
+# other runs that read /repo are not disturbed; the checks honour VERIF_REPO
+EVAL_REPO = os.environ.get("EVAL_REPO", "/repo")
+os.environ["VERIF_REPO"] = EVAL_REPO
 
 def save_evidence():
     """the checks rewrite evidence/<id>.json on every run: runs against a patched /repo must not leave theirs behind"""
@@ -36,10 +40,10 @@ def main():
         diff = open(os.path.join(pdir, "patch.diff")).read()
         files = set(re.findall(r"^\+\+\+ b/(\S+)", diff, re.M))
         ids = sorted({p["id"] for p in props if any(f in files for f in p["anchors"]["files"])} | {"C13", "C17"})
-        rc, out = sh("git -C /repo status --porcelain --untracked-files=no")
+        rc, out = sh("git -C %s status --porcelain --untracked-files=no" % EVAL_REPO)
         if out.strip():
             raise SystemExit("/repo has uncommitted changes")
-        rc, out = sh("git -C /repo apply %s" % os.path.join(pdir, "patch.diff"))
+        rc, out = sh("git -C %s apply %s" % (EVAL_REPO, os.path.join(pdir, "patch.diff")))
         if rc != 0:
             results[name] = {"error": "does not apply: " + out[-200:]}
             continue
@@ -55,7 +59,7 @@ def main():
                                       "failed_obligations": ev["coverage"].get("failed_obligations", [])[:4],
                                       "translator_notes": ev["coverage"].get("translator_notes", [])[:6]}
         finally:
-            sh("git -C /repo checkout -- .")
+            sh("git -C %s checkout -- ." % EVAL_REPO)
             restore_evidence(keep)
         alarms = [k for k, v in res["checks"].items() if v["exit"] != 0]
         print(name, "files:", ",".join(sorted(files)), "checks:", len(ids), "ALARMS:", alarms, flush=True)
